@@ -374,7 +374,7 @@ pub fn configs(tier: Tier) -> (Vec<Cfg>, usize) {
     let lens = vec![0, 1, 2, 3, 7, 1000];
     let mut v = vec![];
     let depth = match tier {
-        Tier::Quick => 6,
+        Tier::Quick => 7,
         Tier::Thorough => 9,
     };
     for max_segments in [1usize, 2, 3] {
